@@ -6,6 +6,7 @@ import Proofs.Machine.HunkCounter
 import Proofs.WholeDiff
 import Proofs.WholeDiffWidth
 import Proofs.Machine.HunkNames
+import Proofs.Machine.HunkRowsShape
 /-!
 C05 — displayed line numbers are the true old/new file line numbers.
 
@@ -562,6 +563,45 @@ example : (match run { hhFile := true, hunkLabel := "HUNK@".toList }
         "diff --git a/gone b/gone", "deleted file mode 100644", "--- a/gone", "+++ /dev/null", "@@ -5 +0,0 @@", "-z"].map probeLine) with
     | .ok m => (m.out.filter (fun r => r.kind = .hunkHeader)).map (fun r => String.ofList r.text)
     | .error _ => []) = ["HUNK@ x.rs:1: ", "HUNK@ x.rs:90: fn g() ", "HUNK@ gone:0: "] := by decide
+
+/-- **`hunk_header_path_whole_run`** — the whole-run statement `hunk_header_path_partial` left open, as a corollary of C14
+`hunk_header_row_shows_own_section` (the names carried through every handler of `Machine.run`,
+`Proofs/Machine/HunkRows*.lean`). For every configuration in which the file header is a row of its own (`FHC`, the scope
+of the section calculus) and every git diff that is a list of well-formed sections (`Sec2`, every kind git emits):
+1. the hunk-header rows of the output are, in order, `hhRowsOf2 cfg 0 secs` — one `hhRowOf` per `@@` line that a line of
+   its hunk follows, made from that line and from the two names of the section it stands in (`secNames mi pl`);
+2. with `file` and `line-number` in the hunk-header style (not raw, not omitted) such a row for a two-way
+   `@@ -a,b +c,d @@ frag` line reads `<label><path>:<c>:<frag>` where `<path>` is the path of the section's `+++ ` line —
+   of its `--- ` line when the `+++ ` line says `/dev/null` — and `c` is the new-file start of that very `@@` line. -/
+theorem hunk_header_path_whole_run {cfg : Cfg} (hc : FHC cfg) (secs : List Sec2) (w : ∀ s ∈ secs, s.WF) {m : M}
+    (e : run cfg (linesOf2 secs) = .ok m) :
+    m.out.filter (fun r => r.kind == .hunkHeader) = hhRowsOf2 cfg 0 secs ∧
+    (cfg.hunkHeaderStyle.isRaw = false → cfg.hunkHeaderStyle.isOmitted = false → cfg.hhFile = true →
+      cfg.hhLineNumber = true →
+      ∀ (mi pl h : L) (i : Nat) (hh : Headers.HunkHeader) (a b c d : Nat),
+        Headers.parseHunkHeader h.text = some hh → hh.coords = [(a, b), (c, d)] →
+        hhRowOf cfg (secNames mi pl) h i =
+          [{ kind := .hunkHeader,
+             text := (if cfg.hunkLabel ≠ [] then cfg.hunkLabel ++ [' '] else []) ++
+               ((if (Headers.parseDiffHeaderLine pl.text true).1 = Generated.Markers.devNull
+                   then (Headers.parseDiffHeaderLine mi.text true).1 else (Headers.parseDiffHeaderLine pl.text true).1) ++
+                 ':' :: (toString c).toList ++ [':'] ++ (if fragBody cfg hh = [] then [' '] else [])) ++
+               Text.expand cfg.tab (fragBody cfg hh) ++ hhPad cfg.hunkHeaderStyle,
+             src := i }]) :=
+  ⟨run_hunk_rows hc secs w e, fun hr ho hf hn mi pl h i hh a b c d hp hco =>
+    hhRowOf_file_line hr ho hc.notCO hf hn (secNames mi pl) h i hh a b c d hp hco⟩
+
+/-- the run of the example above as sections: hypotheses met, rows as the theorem says -/
+def pathSecs : List Sec2 :=
+  [.file { d := probeLine "diff --git a/x.rs b/x.rs", noise := [],
+           body := .named (probeLine "--- a/x.rs") (probeLine "+++ b/x.rs") none
+             (["@@ -1 +1 @@", "-a", "+b", "@@ -70,2 +90,1 @@ fn g()", "-c", " d"].map probeLine) },
+   .file { d := probeLine "diff --git a/gone b/gone", noise := [probeLine "deleted file mode 100644"],
+           body := .named (probeLine "--- a/gone") (probeLine "+++ /dev/null") none (["@@ -5 +0,0 @@", "-z"].map probeLine) }]
+example : FHC { hhFile := true, hunkLabel := "HUNK@".toList } := ⟨rfl, rfl, rfl⟩
+example : ∀ s ∈ pathSecs, s.WF := wf_of_all (by decide)
+example : (hhRowsOf2 { hhFile := true, hunkLabel := "HUNK@".toList } 0 pathSecs).map (fun r => (String.ofList r.text, r.src)) =
+    [("HUNK@ x.rs:1: ", 3), ("HUNK@ x.rs:90: fn g() ", 6), ("HUNK@ gone:0: ", 13)] := by decide
 
 end HeaderRowOverMachine
 
